@@ -80,6 +80,7 @@ def expected_context(body_after_version):
 
 def _run(env):
     ctx, d, pgpy = env.ctx, env.d, env.pgpy
+    S.check_pins(ctx, S.sig_pins(env.pgpy))
     rng = ctx.rng
     k = env.key('ed25519')
     pub = k.pubkey
